@@ -564,27 +564,30 @@ def check_C06(ctx, prop="C06"):
                     continue
             ctx.violation("precedence", "%s %s default %r env %r argv %r: value %r, expected %r"
                           % (c["_kind"], "option" if c["_isopt"] else "argument", c["_default"], c["env"], c["argv"], got, exp), case=c)
-    # two []string parameters declared with the very same default slice: giving one a value must not touch the other
+    # two multi-valued parameters declared with the very same default slice: giving one a value must not touch the other
     if prop == "C06":
         shared = []
-        for how in ("cli", "env"):
-            for second_is_arg in (False, True):
-                for dflt in (["a", "b"], ["a", "b", "c"]):
-                    for vals in (["x"], ["x", "y"], ["x", "y", "z", "w"]):
-                        d1 = gen.mkopt("strings", "i inc", env="VE_I" if how == "env" else "", defshare="k", sbu=True, **{"def": list(dflt)})
-                        d2 = (gen.mkarg if second_is_arg else gen.mkopt)("strings", "ARG" if second_is_arg else "o out", defshare="k", sbu=True, **{"def": list(dflt)})
-                        spec = "[-i...] " + ("[ARG...]" if second_is_arg else "[-o...]")
-                        argv = [] if how == "env" else [t for v in vals for t in ("-i", v)]
-                        env = {"VE_I": ", ".join(vals)} if how == "env" else {}
-                        for order in ((d1, d2), (d2, d1)):
-                            root = gen.mkcmd("app", decls=[copy.deepcopy(order[0]), copy.deepcopy(order[1])], spec=spec, policy=0)
-                            shared.append({"op": "run", "env": env, "version": None, "root": root, "argv": argv, "_dflt": dflt, "_vals": vals,
-                                           "_other": "app|" + d2["name"]})
+        pools = {"strings": (["a", "b", "c"], ["x", "y", "z", "w"]), "ints": (["4", "5", "6"], ["1", "2", "3", "7"]),
+                 "floats": (["1.5", "2.5", "3.5"], ["9", "8", "7", "6"])}
+        for kind, (dpool, vpool) in pools.items():
+            for how in ("cli", "env"):
+                for second_is_arg in (False, True):
+                    for dflt in (dpool[:2], dpool):
+                        for vals in (vpool[:1], vpool[:2], vpool):
+                            d1 = gen.mkopt(kind, "i inc", env="VE_I" if how == "env" else "", defshare="k", sbu=True, **{"def": list(dflt)})
+                            d2 = (gen.mkarg if second_is_arg else gen.mkopt)(kind, "ARG" if second_is_arg else "o out", defshare="k", sbu=True, **{"def": list(dflt)})
+                            spec = "[-i...] " + ("[ARG...]" if second_is_arg else "[-o...]")
+                            argv = [] if how == "env" else [t for v in vals for t in ("-i", v)]
+                            env = {"VE_I": ", ".join(vals)} if how == "env" else {}
+                            for order in ((d1, d2), (d2, d1)):
+                                root = gen.mkcmd("app", decls=[copy.deepcopy(order[0]), copy.deepcopy(order[1])], spec=spec, policy=0)
+                                shared.append({"op": "run", "env": env, "version": None, "root": root, "argv": argv, "_dflt": dflt, "_vals": vals,
+                                               "_other": "app|" + d2["name"]})
         sres = correspond(ctx, shared, ["outcome", "trace", "values"], "two parameters sharing one default slice")
         for c in shared:
             a, _ = sres[c["id"]]
             if not accepted(a) or a["values"].get(c["_other"]) != c["_dflt"] or a["values"].get("app|i inc") != c["_vals"]:
-                ctx.violation("precedence", "two []string parameters with the same default %r, one given %r: values %r"
+                ctx.violation("precedence", "two multi-valued parameters with the same default slice %r, one given %r: values %r"
                               % (c["_dflt"], c["_vals"], a["values"]), case=c)
     ctx.stream("kinds x opt/arg x defaults x env lists x cli counts", 0, k1_shape=k1)
     ctx.sample({"kind": "ints", "default": ["4", "5"], "env": {"VE0": "", "VE1": "7, 8"}, "argv": [], "expected": ["7", "8"]})
@@ -781,6 +784,35 @@ def check_C16(ctx):
         want = ("Usage: app " + explicit).rstrip()
         if ul and ul[0] != " ".join(want.split()):
             ctx.violation("default-spec", "usage line %r, expected %r" % (ul[0], want), case=cases[i])
+    # the same at every level of a tree: every command without a spec is given the synthesised one
+    def explicit_tree(c):
+        c = dict(c)
+        if c["spec"] == "":
+            o = [d for d in c["decls"] if d["t"] == "opt"]
+            a_ = [d for d in c["decls"] if d["t"] == "arg"]
+            c["spec"] = ("[OPTIONS] " if o else "") + " ".join(x["name"] for x in a_)
+        c["subs"] = [explicit_tree(x) for x in c["subs"]]
+        return c
+    tcases, tpairs = [], []
+    for _ in range(ctx.scale(500, 5000)):
+        root, path, per_level, cmds = tree_invocation(ctx, rng.randint(1, 3), 3, reject_prob=0.3, simple_hooks=False)
+        root["policy"] = rng.choice([0, 1, 2])
+        argv = flat_argv(path, per_level)
+        if rng.random() < 0.2:
+            argv.insert(rng.randint(0, len(argv)), rng.choice(["-h", "--help"]))
+        tpairs.append(len(tcases))
+        tcases.append({"op": "run", "env": {}, "version": None, "root": root, "argv": argv})
+        tcases.append({"op": "run", "env": {}, "version": None, "root": explicit_tree(copy.deepcopy(root)), "argv": argv})
+    number(tcases, start=len(cases))
+    tres = correspond(ctx, tcases, ALL, "implicit and explicit specs at every level of a tree")
+    for i in tpairs:
+        a1, _ = tres[tcases[i]["id"]]
+        a2, _ = tres[tcases[i + 1]["id"]]
+        d = diff_obs(a1, a2, ALL)
+        if d:
+            ctx.violation("default-spec", "tree invoked with %r: with every missing spec written out the run differs on %s: %r vs %r"
+                          % (tcases[i]["argv"], d, {k: a1[k] for k in d}, {k: a2[k] for k in d}), case=tcases[i], variant=tcases[i + 1])
+    ctx.stream("implicit and explicit specs at every level of a tree", 0, pairs=len(tpairs))
     # the usage line itself, through --help
     ctx.stream("implicit and explicit spec", 0, pairs=len(pairs))
     ctx.sample({"decls": [d["name"] for d in cases[0]["root"]["decls"]], "explicit": pairs[0][1], "argv": cases[0]["argv"]})
